@@ -20,7 +20,7 @@ MANIFEST = dict(
     category='fault_enumeration', design_ref='DESIGN.md §3 C06, §2.7',
     engine='E3-faults',
     technique='exhaustive single-fault injection at every progress callback, SQL statement (before/after), authorizer callback, VM step of remove and document-corruption position, on the real add/remove path, with a byte-exact unchanged-database oracle',
-    text='For each operation (add of a single lexicon, of a two-lexicon resource, of an extension onto an installed base, of an ILI file, of a gzip file and of a tar package; remove of a base with two extensions; remove of "*" over three lexicons) and pre-state, the fault-free run counts the injection points and the operation is re-run from the same snapshot once per point with exactly one fault. After each faulted run: the call must have raised, the exact dump of every table (lookup tables included) must equal the pre-state (per lexicon for multi-lexicon removals) - both in the file and as seen through the connection the library keeps -, and repeating the operation without faults on the same connection must give the canonical dump of the fault-free run. Corrupted documents (each sense->synset reference, each sense/synset relation target, each duplicated entry id, each duplicated form) must be rejected the same way.',
+    text='For each operation (add of a single lexicon, of a two-lexicon resource, of an extension onto an installed base, of an ILI file, of a gzip file and of a tar package; remove of a base with two extensions; remove of "*" over three lexicons) and pre-state, the fault-free run counts the injection points and the operation is re-run from the same snapshot once per point with exactly one fault. After each faulted run: the call must have raised, the exact dump of every table (lookup tables included) must equal the pre-state (per lexicon for multi-lexicon removals) - both in the file and as seen through the connection the library keeps -, and repeating the operation without faults on the same connection must give the canonical dump of the fault-free run - for progress-callback faults also while the caller still holds the exception object (retry inside the except block). Corrupted documents (each sense->synset reference, each sense/synset relation target, each duplicated entry id, each duplicated form) must be rejected the same way.',
     note='Process crashes / power loss are outside the property (the code documents synchronous=OFF, journal_mode=MEMORY). A collection is treated per resource. An exception raised by progress.close() arrives after the commit (recorded finding).',
 )
 
@@ -266,17 +266,25 @@ def check(case):
             elif kind == 'vm':
                 e3.S.vm_fire = idx
             raised = None
+            held = None
             sub = w / f'p{n}'
             try:
                 perform(op, sub, e3.CountingProgress)
             except BaseException as exc:     # noqa: BLE001
-                raised = type(exc)           # do not keep the traceback (and its cursors) alive
-                del exc
-            gc.collect()
+                raised = type(exc)
+                if case.get('hold'):
+                    # a caller that retries inside its 'except' block (or a REPL keeping sys.last_exc) keeps the
+                    # exception, its traceback and so the library's frames and cursors alive during the retry
+                    held = exc
+                del exc                      # otherwise: do not keep the traceback (and its cursors) alive
+            if held is None:
+                gc.collect()
             fired = e3.S.fired
             one = {'op': opname, 'kind': kind, 'points': [idx]}
             if case.get('then_remove'):
                 one['then_remove'] = case['then_remove']
+            if case.get('hold'):
+                one['hold'] = True
             if fired is None:
                 continue                      # the point does not exist in this run
             digs.append(f'{kind}:{raised.__name__ if raised else None}:{fired.split(" ")[0]}')
@@ -539,6 +547,7 @@ def space(tier, seed):
             for lo in range(1, total + 1, size):
                 cases.append(dict({'op': name, 'kind': kind, 'points': list(range(lo, min(total, lo + size - 1) + 1))}, **kw))
         chunks('cb', counts['cb'], 25)
+        chunks('cb', counts['cb'], 25, hold=True)      # the caller holds on to the exception while retrying
         victims = {'add-single-onto-unrelated': 'c:1', 'add-extension': 'a:1', 'add-two': 'a:1', 'add-gz': 'c:1',
                    'add-ili': 'a:1'}
         if name in victims:
@@ -548,6 +557,7 @@ def space(tier, seed):
         chunks('st-after', counts['st'], 25)
         if tier == 'thorough' or name in ('add-single', 'add-extension', 'remove-base-with-extensions'):
             chunks('au', counts['au'], 40)
+            chunks('au', counts['au'], 40, hold=True)
         if allops[name]['kind'] == 'remove':
             if tier == 'thorough':
                 chunks('vm', counts['vm'], 200, gran=1)
